@@ -25,6 +25,7 @@ SPEC = {
         {"name": "TestMutations", "quick": 4800, "thorough": 192000, "shards_quick": 6, "shards_thorough": 16, "timeout": 1800},
         {"name": "TestPlaceholders", "quick": 2400, "thorough": 96000, "shards_quick": 4, "shards_thorough": 16, "timeout": 1800},
         {"name": "TestMultiPlaceholders", "quick": 1600, "thorough": 32000, "shards_quick": 4, "shards_thorough": 16, "timeout": 1800},
+        {"name": "TestLongProperty", "quick": 800, "thorough": 32000, "shards_quick": 4, "shards_thorough": 16, "timeout": 1800},
         {"name": "TestScenarioPlaceholders", "quick": 1600, "thorough": 64000, "shards_quick": 4, "shards_thorough": 16, "timeout": 1800},
         {"name": "TestDiscardOverflowDefault", "quick": 400, "thorough": 16000, "shards_quick": 2, "shards_thorough": 16, "timeout": 1800},
     ],
@@ -56,7 +57,18 @@ SPEC = {
              "list (ammo headers, chosencases ...), a value of a string map (reflect_metadata). All placeholders resolve (2 of 5): "
              "decodes like the literal. Otherwise one (1 in 5: two) of them names an unset variable / missing key / missing file, "
              "at the first, a middle or the last place - in particular FOLLOWED by placeholders that resolve - and the "
-             "configuration must be rejected with an error. TestScenarioPlaceholders: a generated scenario description (0-3 variable sources of the types file/csv, file/json, "
+             "configuration must be rejected with an error. TestLongProperty: ${property:file#key} whose LINE in the property file is long - a JWT-like, base64 (with `=`) or "
+             "`k=v; ` pair text on one line; length of the line `key=value`: 30% within 6 bytes of 4096, 10% around 8192, 10% around 12288 / "
+             "16384 / 32768 / 61440, 10% 65400-65500, the rest 4000-64000 by octave - in a free-text string field (no validate tag, no value "
+             "generator of its own; the pool id), an item of a string list (a header item keeps its `[Name: ` ... `]` frame around the placeholder) "
+             "or a value of a string map, whole or between literal text (`Bearer `, `;v=1`); the file has 0-3 short lines (other keys, comments) "
+             "before and after, in 1 of 4 cases another long line before the requested one, no final newline in 1 of 5, and the text `<requested "
+             "key>=...` written INSIDE a long value (own line 1 of 3, earlier long line 1 of 2; half of them exactly 4096*n bytes from the start of "
+             "the line): the configuration must decode like the one holding the whole value literally. In 1 of 5 cases no line has the requested key "
+             "while `<key>=<accepted text>` stands inside the long value of another key: must be rejected with an error. Lines stay <= 65500 bytes "
+             "(measured on the unchanged tree: bufio.Scanner reads a line of up to 65535 bytes whole; from 65536 bytes on that key and every key after "
+             "it is reported as `no such property`, a rejection). The case stores the recipe of the long text, not the text. "
+             "TestScenarioPlaceholders: a generated scenario description (0-3 variable sources of the types file/csv, file/json, "
              "variables; 1-2 http requests with headers, body, preprocessor mapping, var/header / var/jsonpath / var/xpath / "
              "assert/response postprocessors, templater and / or 1-2 grpc calls with metadata, prepare preprocessor, assert/response "
              "postprocessor; 1-2 scenarios; locals) is written as a YAML file on the mem fs and read with the providers' reader "
@@ -102,6 +114,16 @@ SPEC = {
         "TestScenarioPlaceholders/missing_with_decoy:case_variant:env": 0.01, "TestScenarioPlaceholders/section:requests": 0.2,
         "TestScenarioPlaceholders/section:calls": 0.1, "TestScenarioPlaceholders/section:scenarios": 0.1,
         "TestScenarioPlaceholders/section:variable_sources": 0.1,
+        # classes added after seeded defect C17/m12 (long property lines)
+        "TestLongProperty/long_value": 0.55, "TestLongProperty/line:ge_4096": 0.35, "TestLongProperty/line:around_4096": 0.2,
+        "TestLongProperty/line:4096..4102": 0.07, "TestLongProperty/line:8k..16k": 0.05, "TestLongProperty/line:16k..32k": 0.03,
+        "TestLongProperty/line:32k..64k": 0.015, "TestLongProperty/line:65400..65500": 0.02,
+        "TestLongProperty/pos:string_field": 0.3, "TestLongProperty/pos:list_item": 0.15, "TestLongProperty/pos:map_value": 0.04,
+        "TestLongProperty/embedded": 0.2, "TestLongProperty/whole": 0.3, "TestLongProperty/long_line_before": 0.2,
+        "TestLongProperty/key_named_inside_long_value": 0.15, "TestLongProperty/key_named_inside_earlier_long_value": 0.06,
+        "TestLongProperty/key_named_inside_long_value_at_4096n": 0.04, "TestLongProperty/missing_key_named_inside_long_value": 0.11,
+        "TestLongProperty/missing_key_named_inside_long_value_at_4096n": 0.025, "TestLongProperty/requested_line_between_others": 0.2,
+        "TestLongProperty/requested_line_last_without_newline": 0.015, "TestLongProperty/value:base64": 0.08, "TestLongProperty/value:pairs": 0.1,
         "TestDiscardOverflowDefault/source:file": 0.15, "TestDiscardOverflowDefault/source:file_noext": 0.04,
         "TestDiscardOverflowDefault/source:stdin": 0.11, "TestDiscardOverflowDefault/source:search_dir": 0.031,
         "TestDiscardOverflowDefault/source:search_dir_config": 0.04, "TestDiscardOverflowDefault/some_pool_without_key:stdin": 0.047,
@@ -135,7 +157,9 @@ SPEC = {
                  "name differing only in letter case or by one character is defined) and placeholders resolving to text that "
                  "is no value of the field must be rejected; a value holding several placeholders (string field, list item, map value) "
                  "decodes like the literal when all resolve and is rejected when any one of them - also one followed by resolving "
-                 "ones - names nothing. The same literal-vs-placeholder comparison is made for every scalar "
+                 "ones - names nothing. A ${property} placeholder whose line in the property file is long (4000 bytes - just under 64 KiB, other "
+                 "lines before and after, `key=` text inside values) decodes like the whole value written literally, and is rejected when only text "
+                 "inside another key's value names the key. The same literal-vs-placeholder comparison is made for every scalar "
                  "of generated scenario description files read by the scenario providers' reader. The CLI reader must decode discard_overflow as true exactly when the key is "
                  "absent from a pool of the configuration, for every source the CLI reads it from (file argument with / without extension, "
                  "standard input, ./load.* and ./config/load.* of the working directory)."),
@@ -146,7 +170,8 @@ SPEC = {
                  "functions are the reference for defaults (only the http guns' documented defaults are transcribed from the docs). "
                  "Scenario providers (http/scenario, grpc/scenario ammo) are not in the component table; their description files "
                  "are covered for placeholders only (YAML form; HCL is C16's subject), and values nested deeper inside the free-form "
-                 "`variables` / `locals` maps are copied verbatim by the decoder (no hook sees them) and are not asserted. The effect of discard_overflow on a "
+                 "`variables` / `locals` maps are copied verbatim by the decoder (no hook sees them) and are not asserted. Property lines of 65536 bytes and more are not generated (the resolver reports the key and all keys after it "
+                 "as missing: a rejection, measured, not asserted). The effect of discard_overflow on a "
                  "running pool is C04's subject; the subprocess cross-check sketched in DESIGN.md was not built."),
     },
     "assumptions": [
